@@ -53,6 +53,17 @@ def run_iter(obj, m, bitlen, padding):
     ev['after'] = dict(bitcnt=limbs(obj.bitcnt, 8), padcnt=int(obj.padcnt), padflag=bool(obj.padflag))
     return ev
 
+def run_iter_gen(obj, gen, m, bitlen, padding):
+    """consume a generator that was CREATED earlier (a generator function does nothing until its first next()): the call counts from here"""
+    ev = dict(op='iter', m=B(m), bitlen=-1 if bitlen is None else bitlen, padding=padding, raised='', blocks=[], cnts=[])
+    try:
+        for blk in gen:
+            ev['blocks'].append(B(bytes(blk))); ev['cnts'].append(limbs(obj.bitcnt, 8))
+    except Exception as e:
+        ev['raised'] = type(e).__name__
+    ev['after'] = dict(bitcnt=limbs(obj.bitcnt, 8), padcnt=int(obj.padcnt), padflag=bool(obj.padflag))
+    return ev
+
 def run_remove(obj, c):
     ev = dict(op='remove', c=B(c), raised='', out=[])
     try:
@@ -230,6 +241,24 @@ def run(ctx):
                         if not big and sch['B'] > 16 and bo not in (0, 1, 7) and (k % 3): k += 1; continue
                         k += 1
                         traces.append(single(s, var, nblk, res, bo, k % 7, rnd, explicit=(k % 5 == 0)))
+    # one call with more than 4096 bytes for block lengths that do not divide 4096 (and two that do)
+    for s in ('zero', 'iso', 'pkcs7', 'none', 'sha'):
+        for Bb in ((3, 5, 7, 9, 24, 8) if big else (3, 7, 24, 16)):
+            if s == 'sha':
+                if Bb not in (24, 16): continue
+                var = (Bb, 4, None)
+            else: var = (Bb, None, None)
+            obj, sch = make(s, *var); n = 4096 + Bb * 5 + (0 if s == 'none' else 2); n -= (n % Bb) if s == 'none' else 0
+            e = run_iter(obj, content(rnd, n, 0), None, True)
+            traces.append(dict(sch=sch, ev=[e], scen=dict(kind='long single call', scheme=s, n=n)))
+    # generators created up-front and consumed later, in order: each call takes effect when it is consumed
+    for s in SCHEMES:
+        var = variants(s, False)[-1]; obj, sch = make(s, *var); Bb = sch['B']
+        m1, m2, m3 = content(rnd, Bb, 0), content(rnd, 2 * Bb, 0), content(rnd, Bb + (0 if s == 'none' else 3), 0)
+        try: gens = [obj.iterblocks(m1, padding=False), obj.iterblocks(m2, padding=False), obj.iterblocks(m3, padding=True), obj.iterblocks(m1, padding=False)]
+        except Exception: continue
+        ev = [run_iter_gen(obj, g, m, None, p) for g, m, p in zip(gens, (m1, m2, m3, m1), (False, False, True, False))]
+        traces.append(dict(sch=sch, ev=ev, scen=dict(kind='generators created before use', scheme=s)))
     # length fields that need more than one word: the public bit counter is preset, then a final piece (and a continuation + final piece)
     for s in ('md', 'sha', 'blake'):
         for var in variants(s, big):
